@@ -717,9 +717,22 @@ func genHistory(maxSteps int) *rapid.Generator[HCase] {
 		pool = append(pool, "sync")
 	}
 	pool = append(pool, "push", "push", "push", "gc", "gc", "gc")
+	// attribute stratum: both replicas set and remove the same attributes of the
+	// same text ranges / paragraphs concurrently (tree: Style / RemoveStyle;
+	// text: Style and its undo, the only attribute removal of the Go SDK), in
+	// both delivery orders - a removal that loses against a newer value, a value
+	// that loses against a newer removal, nodes whose only attribute is contested
+	attrPool := []string{"trstyle", "trstyle", "trstyle", "trstyle", "tstyle", "tstyle", "tstyle", "undo", "undo", "redo",
+		"tedit", "trtext", "sync", "sync", "push", "push", "push"}
 	return rapid.Custom(func(t *rapid.T) HCase {
 		curCtx = genCtx{sharp: rapid.IntRange(0, 2).Draw(t, "sharp") == 0}
 		n := rapid.IntRange(3, maxSteps).Draw(t, "len")
+		if rapid.IntRange(0, 5).Draw(t, "attrs") == 0 {
+			steps := rapid.SliceOfN(genHStep(attrPool), n, n).Draw(t, "steps")
+			// a few characters to style first
+			steps = append([]HStep{{W: 0, Op: "tedit", A: 0, B: 0, C: 5}, {W: 0, Op: "sync"}}, steps...)
+			return HCase{Sharp: curCtx.sharp, Steps: steps}
+		}
 		steps := rapid.SliceOfN(genHStep(pool), n, n).Draw(t, "steps")
 		return HCase{Sharp: curCtx.sharp, Steps: steps}
 	})
